@@ -137,9 +137,17 @@ def gen_job(seed, profile="general"):
             if fkind == "Axi":
                 um = gen_hyper(r, history=False)
         it = {"type": "SolidBody", "umat": um}
-        if r.random() < 0.1:
+        if r.random() < 0.15:
             it["multiplier"] = r.choice([0.5, 2.0])
         items.append(it)
+        if r.random() < 0.12 and um["name"] not in ("LinearElastic",):
+            # a second, superposed body on the same field (with or without its own multiplier)
+            it2 = {"type": "SolidBody", "umat": {"name": "NeoHookeCompressible", "p": {"mu": rfloat(r, 0.2, 1.0), "lmbda": rfloat(r, 0.5, 2.0)}}}
+            if r.random() < 0.4:
+                it2["multiplier"] = r.choice([0.25, 3.0])
+            items.append(it2)
+            if r.random() < 0.5:
+                items.reverse()
     doc["items"] = items
     linear_types = mesh.get("convert") in (None,)
     # loads ---------------------------------------------------------------------------------
@@ -155,8 +163,14 @@ def gen_job(seed, profile="general"):
     if case == "uniaxial":
         bc["clamped"] = r.random() < 0.4
         bc["sym"] = True
+        if profile != "tangent" and fkind != "Axi":
+            bc["axis"] = r.randrange(dim)
+    if case == "biaxial" and dim == 3 and r.random() < 0.5:
+        import itertools
+
+        bc["axes"] = list(r.choice(list(itertools.permutations(range(3), 2))))
     top = r.choice([0.05, 0.1, 0.2, 0.3]) * (1 if r.random() < 0.75 else -0.5)
-    if history and items[0]["umat"]["name"] == "Plastic":
+    if history and any(i.get("umat", {}).get("name") == "Plastic" for i in items):
         top = r.choice([0.02, 0.05, 0.08])
     extra = []
     if r.random() < 0.35:
